@@ -90,9 +90,10 @@ CASES = [
  ("C19", "basic/random.py", "        if n < 0 or n > N:\n            n = N", "        if not (0 <= n <= N):\n            n = N", "keep"),
  ("C19", "stochastic/_ranker.py", "        if n < 0 or n > N:\n            n = N", "        if not (0 < n <= N):\n            n = N", "break"),
 ]
-import py2lean_np, py2lean_scatter, py2lean_imp, py2lean_holdout, py2lean_arrow, py2lean_cand, py2lean_neg, py2lean_als, py2lean_agg, py2lean_rank, py2lean_sim
+import py2lean_np, py2lean_scatter, py2lean_imp, py2lean_holdout, py2lean_arrow, py2lean_cand, py2lean_neg, py2lean_als, py2lean_agg, py2lean_rank, py2lean_sim, py2lean_split
 # other per-run translators: (generated file, obligations module, generator, its Unsupported)
-OTHER = {"C09sim": ("SimC09.lean", "LK.Proofs.SimC09", py2lean_sim.translate, py2lean_sim.Unsupported),
+OTHER = {"C05split": ("SplitC05.lean", "LK.Proofs.SplitC05", py2lean_split.translate, py2lean_split.Unsupported),
+         "C09sim": ("SimC09.lean", "LK.Proofs.SimC09", py2lean_sim.translate, py2lean_sim.Unsupported),
          "C01ptr": ("RowPtrsC01.lean", "LK.Proofs.RowPtrsC01", py2lean_arrow.translate_rowptrs, py2lean_arrow.Unsupported),
          "C19lin": ("ImpC19.lean", "LK.Proofs.ImpC19", py2lean_imp.translate_linear, py2lean_imp.Unsupported),
          "C06rank": ("RankC06.lean", "LK.Proofs.RankC06", py2lean_rank.generate, py2lean_rank.Unsupported),
@@ -108,6 +109,10 @@ OTHER = {"C09sim": ("SimC09.lean", "LK.Proofs.SimC09", py2lean_sim.translate, py
          "C08np": ("NpC08.lean", "LK.Proofs.NpC08", py2lean_np.translate_learn, py2lean_np.Unsupported),
          "C04sc": ("ScatterC04.lean", "LK.Proofs.ScatterC04", py2lean_scatter.generate, py2lean_scatter.Unsupported)}
 CASES += [
+ ("C05split", "splitting/records.py", "        train_build.add_interactions(iname, df[~mask])", "        train_build.add_interactions(iname, df[mask])", "break"),
+ ("C05split", "splitting/records.py", "    train_build.clear_relationships(iname)\n", "", "break"),
+ ("C05split", "splitting/records.py", "        end = start + size\n        yield xs[start:end]", "        end = start + size + 1\n        yield xs[start:end]", "break"),
+ ("C05split", "splitting/records.py", "    test_sets = np.array_split(rows, partitions)", "    test_sets = np.array_split(rows, partitions + 1)", "break"),
  ("C09sim", "knn/item.py", "    sim[item] = 0\n", "", "break"),
  ("C09sim", "knn/item.py", "    mask = sim >= min_sim", "    mask = sim > min_sim", "break"),
  ("C09sim", "knn/item.py", "max_nbrs > 0 and max_nbrs < vals.shape[0]:", "max_nbrs > 0 and max_nbrs > vals.shape[0]:", "break"),
